@@ -73,6 +73,13 @@ CHECKS = [
            "ns/us/ms/s and time zones; random longer series are validated by Var2hTrace.tla.",
       note="tick lattice, integer values; periods beyond the data or merely touched by an invalid interval unconstrained; no DST zones",
       technique=TLA),
+ dict(property_id="C04", category="model_checking", design_ref="3.11",
+      text="Scores.tla states bias/NSE/Pearson/Spearman/KGE, the confusion matrix and the binary scores as exact rational definitions; TLC enumerates "
+           "every observed/simulated series pair (incl. NaN masks and affine images), every category-series pair and every 2x2 table of the configs, "
+           "checks the running-sum model and the range facts, and every state is replayed through metrics.* (excludenull, invariances, ncat given / "
+           "inferred); random series and transform relations are validated by ScoresTrace.tla.",
+      note="integer-valued series; irrational quantities compared through squares and signs; LOR through exp()",
+      technique=TLA),
 ]
 
 _PENDING = "check not built yet in this round; see DESIGN.md section 3 for the planned specification"
